@@ -3,7 +3,11 @@ use crate::util::Run;
 pub mod c01;
 pub mod c02;
 pub mod c03;
+pub mod c08;
+pub mod c09;
+pub mod c10;
 pub mod c11;
+pub mod c12;
 pub mod c13;
 pub mod c14;
 
@@ -12,7 +16,11 @@ pub fn dispatch(id: &str, run: &mut Run) -> bool {
         "C01" => c01::run(run),
         "C02" => c02::run(run),
         "C03" => c03::run(run),
+        "C08" => c08::run(run),
+        "C09" => c09::run(run),
+        "C10" => c10::run(run),
         "C11" => c11::run(run),
+        "C12" => c12::run(run),
         "C13" => c13::run(run),
         "C14" => c14::run(run),
         _ => return false,
